@@ -37,6 +37,7 @@ type SecureAead struct {
 	secret []byte
 	aead   cipher.AEAD
 	nonce  []byte
+	rest   []byte //decrypted bytes of the last frame which are not returned by Read yet
 }
 
 const (
@@ -117,25 +118,31 @@ func (sa *SecureAead) increaseNonce() {
 	}
 }
 func (sa *SecureAead) Read(b []byte) (n int, err error) {
+	if len(sa.rest) > 0 {
+		n = copy(b, sa.rest)
+		sa.rest = sa.rest[n:]
+		return
+	}
 	frame := make([]byte, secureConnFrameSize)
 	_, err = io.ReadFull(sa.conn, frame[:secureConnHeaderSize])
 	if err != nil {
 		return
 	}
-	n = int(binary.BigEndian.Uint16(frame))
-	sealed := make([]byte, n+sa.aead.Overhead())
+	fn := int(binary.BigEndian.Uint16(frame))
+	sealed := make([]byte, fn+sa.aead.Overhead())
 	_, err = io.ReadFull(sa.conn, sealed)
 	if err != nil {
 		return
 	}
 
-	_, err = sa.aead.Open(frame[:0], sa.nonce, sealed[:], nil)
+	plain, err := sa.aead.Open(frame[:0], sa.nonce, sealed[:], nil)
 	if err != nil {
-		return
+		return 0, err
 	}
 	sa.increaseNonce()
 
-	copy(b, frame[:n])
+	n = copy(b, plain)
+	sa.rest = plain[n:]
 	return
 }
 
